@@ -4,6 +4,7 @@ from __future__ import annotations
 import contextlib
 import io
 import os
+import re
 import random
 import shutil
 import subprocess
@@ -211,6 +212,24 @@ class CliVariants(Stream):
         if rng.random() < 0.3:
             n = rng.choice(sorted(case["universe"]))
             case["multi_platform"] = [[n, v] for v in case["universe"][n] if [n, v] not in case.get("sdists", [])]
+        if rng.random() < 0.4:
+            # one requirer names a project several times with different bounds (several Requires-Dist lines, several lines
+            # of a file): the bounds are merged, and the merged specifier is what the annotations print
+            harmless = [">=0.1", "!=9.9", "<99", "!=0.3", ">0.2"]
+            holders = [(n, v) for n, vs in case["universe"].items() for v, rs in vs.items() if rs]
+            if holders and rng.random() < 0.7:
+                n, v = rng.choice(holders)
+                rs = case["universe"][n][v]
+                t = rng.choice(rs)
+                base = t.split(";")[0].strip()
+                nm = re.match(r"^[A-Za-z0-9._-]+", base).group(0)
+                mk = (" ;" + t.split(";", 1)[1]) if ";" in t else ""
+                case["universe"][n][v] = rs + [nm + b + mk for b in rng.sample(harmless, rng.randint(2, 4))]
+            else:
+                rs = rng.choice(case["inputs"])
+                nm = re.match(r"^[A-Za-z0-9._-]+", rng.choice(rs)).group(0)
+                rs.extend(nm + b for b in rng.sample(harmless, rng.randint(2, 4)))
+            case["several_bounds"] = True
         case["vseed"] = rng.randint(1, 10 ** 6)
         return case
 
@@ -267,6 +286,8 @@ class CliVariants(Stream):
             fl.append("source-archive-and-same-named-broken-one-in-history")
         if case.get("multi_platform"):
             fl.append("two-builds-with-several-platform-tags")
+        if case.get("several_bounds"):
+            fl.append("one-requirer-several-bounds-on-one-project")
         if len(case["inputs"]) > 1:
             fl.append("two-input-files")
         if any(len(rs) > 1 for rs in case["inputs"]):
